@@ -34,7 +34,7 @@ m = {
         "add_only": True,
     },
     "engines": [{"name": "mv", "path": "/verif/mv", "serves_properties": sorted(CHECKS),
-                 "kind_free_text": "runtime monitoring: generated hostile workloads executed against the real library in isolated worker processes, watched by reference-model / history / invariant / side-effect monitors (icontract invariants on the real classes where structural)"}],
+                 "kind_free_text": "runtime monitoring: generated hostile workloads executed against the real library in isolated worker processes, watched by reference-model / history / invariant / side-effect monitors (icontract invariants on the real classes where structural); sys.monitoring LINE events record which lines of the anchor files the monitored executions went through (evidence: anchor_line_coverage)"}],
     "checks": checks,
     "notes": NOTES,
     "not_applicable": na,
